@@ -7,6 +7,7 @@ from .fam_fe import Fe
 from .fam_sess import Sess
 from .fam_tx import Tx
 from .fam_proxy import Fsrv, Proxy, Psess
+from .fam_dmn import Dmn
 
 PROPS = {}
 
@@ -92,6 +93,19 @@ reg(id="C06", props="Props/C06.v", proof_files=["Proofs/FeProofs.v", "Proofs/Pro
     rule=FE_RULE + " || " + PX_RULE, trusted_base=FE_TB + PX_TB, assumptions=BE_ASSUME)
 reg(id="C18", props="Props/C18.v", proof_files=["Proofs/ProxyProofs.v"], families=[Psess(), Fsrv(), Proxy()],
     rule=PX_RULE, trusted_base=PX_TB, assumptions=BE_ASSUME)
+DMN_RULE = ("family dmn: a real VhostUserDaemon (Mutex- and RwLock-backed rings) with a recording backend, driven through its socket by the real "
+            "Frontend with acknowledgements on: random histories of SET_FEATURES with/without PROTOCOL_FEATURES, SET_VRING_KICK with new descriptors, "
+            "SET_VRING_CALL, SET_VRING_ENABLE 0/1, GET_VRING_BASE, RESET_DEVICE and guest kicks on 1..6 rings over a table of mask sets (sparse, "
+            "interleaved, overlapping, bits beyond the queue count); routing cases for every mask set x every queue kicked; custom listener ids "
+            "num_queues, num_queues+1, 255, 65535, 65536+k, 2^32+k, 0. After every step each worker is drained through a custom listener, so 'no dispatch' "
+            "is observed without sleeping; rings are told apart by distinct configured sizes. Judged by Spec/DaemonSpec.v (which dispatches are due, to which "
+            "worker, with which id and ring)")
+DMN_TB = ["hand model Model/Daemon.v of the daemon's control plane, epoll registrations and worker poll (tied by family dmn)",
+          "Spec/DaemonSpec.v: my transcription of the ring life-cycle and routing rules from the property text"]
+DMN_ASSUME = ["level-triggered epoll; eventfd counter semantics; an epoll registration outlives close() while another descriptor of the same open file exists",
+              "std::sync lock mutual exclusion"]
+reg(id="C11", props="Props/C11.v", proof_files=["Proofs/DaemonProofs.v"], families=[Dmn()], rule=DMN_RULE, trusted_base=DMN_TB, assumptions=DMN_ASSUME)
+reg(id="C17", props="Props/C17.v", proof_files=["Proofs/DaemonProofs.v"], families=[Dmn()], rule=DMN_RULE, trusted_base=DMN_TB, assumptions=DMN_ASSUME)
 reg(id="BE-DEV",
     props="Props/C20.v",
     families=[Be()],
@@ -108,3 +122,5 @@ class SessNoSpec(Sess):
 reg(id="SESS-DEV", props="Props/C20.v", families=[Sess()], rule="dev")
 
 reg(id="PX-DEV", props="Props/C20.v", families=[Fsrv(), Proxy(), Psess()], rule="dev")
+
+reg(id="DMN-DEV", props="Props/C20.v", families=[Dmn()], rule="dev")
